@@ -77,7 +77,8 @@ def fk(
     :return:
     """
     if collection is not None:
-        xout = np.zeros_like(x)
+        # integer input (raw counts) gets a floating point result, as without collection
+        xout = np.zeros_like(x, dtype=x.dtype if np.issubdtype(x.dtype, np.inexact) else float)
         for c in np.unique(collection):
             sel = collection == c
             xout[sel, :] = fk(
@@ -156,7 +157,8 @@ def car(x, collection=None, operator='median', **kwargs):
     :return:
     """
     if collection is not None:
-        xout = np.zeros_like(x)
+        # integer input (raw counts) gets a floating point result, as without collection
+        xout = np.zeros_like(x, dtype=x.dtype if np.issubdtype(x.dtype, np.inexact) else float)
         for c in np.unique(collection):
             sel = collection == c
             xout[sel, :] = car(x=x[sel, :], collection=None, operator=operator, **kwargs)
@@ -192,7 +194,8 @@ def kfilt(
     if butter_kwargs is None:
         butter_kwargs = {"N": 3, "Wn": 0.1, "btype": "highpass"}
     if collection is not None:
-        xout = gp.zeros_like(x)
+        # integer input (raw counts) gets a floating point result, as without collection
+        xout = gp.zeros_like(x, dtype=x.dtype if np.issubdtype(x.dtype, np.inexact) else float)
         for c in gp.unique(collection):
             sel = collection == c
             xout[sel, :] = kfilt(
